@@ -401,7 +401,7 @@ def confirm_library(run, v):
                     order = True
             exp_out = v['expected_out']
             ok = (o.get('panic') is not None or got_calls != v['expected_calls'] or o.get('out') != exp_out or order or o.get('result') == 'ok'
-                  or len(writes) != sum(1 for _ in [1]) * len([1 for m in split_answers(v)]))
+                  or len(writes) != len(split_answers(v)))
         detail['release' if rel else 'dev'] = {'observation': o, 'reproduced': ok}
         ok_all = ok_all and ok
     return ok_all, detail
